@@ -558,3 +558,13 @@ _run_c27d = run
 def run(ctx):  # noqa: F811
     _run_c27d(ctx)
     r27_10(ctx, ctx.model)
+
+
+_run_c27e = run
+
+
+def run(ctx):  # noqa: F811
+    _run_c27e(ctx)
+    from .refusal import refusal_rule
+    refusal_rule(ctx, "R27.12", ["nifty.cl.minimization.optimize_kl", "nifty.cl.minimization.config.optimize_kl_config"],
+                 "the classic VI driver and the configuration layer that feeds it its options", floor=4)
